@@ -636,7 +636,7 @@ public:
     std::vector<Nref> nodeObjects;
     for (typename std::vector<NodeGraphid>::iterator currNode = nodes.begin(); currNode != nodes.end(); currNode++)
     {
-      if (*currNode > graphidToN_.size())
+      if (*currNode >= graphidToN_.size())
         continue;
       Nref foundNodeObject = graphidToN_.at(*currNode);
       if (!foundNodeObject)
@@ -667,7 +667,7 @@ public:
     std::vector<Eref> edgeObjects;
     for (const auto& currEdge:edges)
     {
-      if (currEdge > graphidToE_.size())
+      if (currEdge >= graphidToE_.size())
         continue;
       Eref foundEdgeObject = graphidToE_.at(currEdge);
       if (!foundEdgeObject)
